@@ -168,13 +168,13 @@ theorem hasDoubleSlash_tail (p : Bytes) (h : hasDoubleSlash p = true) : [] ∈ (
         · subst hd; rw [splitOn_cons_sep]; simp
         · have : hasDoubleSlash (47 :: d :: r) = hasDoubleSlash (d :: r) := by
             rw [hasDoubleSlash]
-            intro h1 h2; injection h2 with _ h3; injection h3 with h4 _; exact hd h4
+            intro h1 _ h3; injection h3 with h4 _; exact hd h4
           rw [this] at h
           exact List.mem_of_mem_tail (ih h)
     · obtain ⟨hd, tl, h1, h2⟩ := splitOn_cons_ne 47 c rest hc
       have : hasDoubleSlash (c :: rest) = hasDoubleSlash rest := by
         rw [hasDoubleSlash]
-        intro h1 h2; injection h2 with h3 _; exact hc h3
+        intro h1 h2; exact absurd h2 hc
       rw [this] at h
       have := ih h
       rw [h1] at this
